@@ -9,6 +9,7 @@ use vh::dump;
 use vh::polex;
 use vh::resp::{self, Argv};
 use vh::seqx::Bfs;
+use vh::connsys::{decode_replies, ConnWorld};
 use vh::shardsys::{Node, VerifTime};
 use vh::{cli, Reporter, Tier};
 
@@ -312,6 +313,52 @@ fn run_inner(n: usize, keys: &[String], hist: &[&str], op: &str, refresh: bool) 
     })
 }
 
+// ---------------------------------------------------------------------------------------------
+// transaction replay through the real connection handler (MULTI ... EXEC), 1 shard vs N shards
+// ---------------------------------------------------------------------------------------------
+
+/// Keys of this part: k0, k1, k2 placed with the real routing function so that k0 and k1 share a shard of N and
+/// k2 does not (for N = 1 everything is on the one shard).
+const TX_BODY: &[&str] = &[
+    "MSET ka 1 kc 2", "MSET kc 3 ka 4 kb 5", "MGET ka kb kc", "DEL ka kc", "EXISTS ka kc ka", "SET ka x", "SET kc y NX", "APPEND kc z", "RPUSH kb a b", "GET kc",
+];
+const TX_READS: &[&str] = &["GET ka", "GET kb", "GET kc", "TYPE kb", "KEYS *", "DBSIZE"];
+
+/// One connection, one pipeline: MULTI, the body, EXEC, then the reads. Returns the canonical reply transcript.
+fn tx_transcript(shards: usize, keys: &[String], body: &[&str]) -> Result<Vec<String>, String> {
+    polex::with_runtime(|rt| {
+        rt.block_on(async {
+            let mut w = ConnWorld::new(shards);
+            let (st, id) = w.connect("tx", redis_sim::production::ConnectionConfig::default());
+            let mut cmds: Vec<Argv> = vec![resp::line("MULTI")];
+            cmds.extend(body.iter().map(|b| subst(b, keys)));
+            cmds.push(resp::line("EXEC"));
+            cmds.extend(TX_READS.iter().map(|b| subst(b, keys)));
+            for c in &cmds {
+                st.push(&resp::wire(c));
+                w.settle().await?;
+            }
+            st.close();
+            w.settle().await?;
+            if !w.finished(id) {
+                return Err("connection handler did not finish".into());
+            }
+            let (replies, rest) = decode_replies(&st.take_written());
+            if !rest.is_empty() || replies.len() != cmds.len() {
+                return Err(format!("{} replies for {} commands (undecodable rest {} bytes)", replies.len(), cmds.len(), rest.len()));
+            }
+            Ok(cmds
+                .iter()
+                .zip(replies.iter())
+                .map(|(c, r)| {
+                    let name = String::from_utf8_lossy(&c[0]).to_ascii_uppercase();
+                    format!("{} -> {}", resp::show_argv(c), canon(&name, r))
+                })
+                .collect())
+        })
+    })
+}
+
 vh::use_jemalloc!();
 
 fn main() {
@@ -321,6 +368,20 @@ fn main() {
         let r = vh::report::load_replay(path);
         let n = r["shards"].as_u64().unwrap() as usize;
         let keys: Vec<String> = r["keys"].as_array().unwrap().iter().map(|k| k.as_str().unwrap().to_string()).collect();
+        if r["tx"] == json!(true) {
+            let body: Vec<String> = r["body"].as_array().unwrap().iter().map(|k| k.as_str().unwrap().to_string()).collect();
+            let body_ref: Vec<&str> = body.iter().map(|s| s.as_str()).collect();
+            let one = tx_transcript(1, &keys, &body_ref);
+            let many = tx_transcript(n, &keys, &body_ref);
+            println!("1 shard : {:?}", one);
+            println!("{n} shards: {:?}", many);
+            if one != many || one.is_err() {
+                println!("VIOLATION property=C03 replay={} (transaction-replay)", path.display());
+                std::process::exit(1);
+            }
+            println!("replay: no violation");
+            std::process::exit(0);
+        }
         let hist: Vec<String> = r["history"].as_array().unwrap().iter().map(|k| k.as_str().unwrap().to_string()).collect();
         let hist_ref: Vec<&str> = hist.iter().map(|s| s.as_str()).collect();
         let op = r["op"].as_str().unwrap();
@@ -372,7 +433,37 @@ fn main() {
         configs.push(json!({"config": info, "depth_bound": depth, "depth_completed": stats.depth_completed, "states": stats.states,
             "transitions": stats.transitions, "violating_transitions": stats.pruned_transitions, "truncated_by_time_cap": stats.truncated}));
     }
+    // ---- transaction replay: every body of 1-2 commands over TX_BODY, N in the tier's shard counts
+    let mut tx_cases = 0u64;
+    {
+        let bodies: Vec<Vec<&str>> = TX_BODY.iter().map(|a| vec![*a]).chain(TX_BODY.iter().flat_map(|a| TX_BODY.iter().map(move |b| vec![*a, *b]))).collect();
+        let tx_shards: Vec<usize> = if args.tier == Tier::Thorough { vec![2, 3, 4, 5, 16] } else { vec![2, 3] };
+        let items: Vec<(usize, usize)> = tx_shards.iter().flat_map(|n| (0..bodies.len()).map(move |b| (*n, b))).collect();
+        tx_cases = items.len() as u64;
+        vh::par::par_map(&items, |_, (n, bi)| {
+            let (keys, _) = pick_keys(*n);
+            let body = &bodies[*bi];
+            let one = tx_transcript(1, &keys, body);
+            let many = tx_transcript(*n, &keys, body);
+            let replay = json!({"tx": true, "shards": n, "keys": keys, "body": body});
+            match (one, many) {
+                (Ok(a), Ok(b)) => {
+                    if a != b {
+                        let i = (0..a.len().min(b.len())).find(|i| a[*i] != b[*i]).unwrap_or(0);
+                        let names: Vec<&str> = body.iter().map(|c| c.split(' ').next().unwrap()).collect();
+                        rep.violation(
+                            format!("transaction-replay body=[{}]", names.join(",")),
+                            format!("shards={n} keys={:?}: MULTI; {}; EXEC; reads: with {n} shards `{}` but with 1 shard `{}`", keys, body.join("; "), b.get(i).cloned().unwrap_or_default(), a.get(i).cloned().unwrap_or_default()),
+                            replay,
+                        );
+                    }
+                }
+                (Err(e), _) | (_, Err(e)) => rep.violation("transaction-replay no-reply-or-hang".to_string(), format!("shards={n} body {:?}: {e}", body), replay),
+            }
+        });
+    }
     let coverage = json!({
+        "transaction_replay_cases": tx_cases,
         "states": states,
         "transitions": transitions,
         "traces_validated_against_impl": transitions,
